@@ -185,7 +185,9 @@ Definition wake_drains (c : nat) (r : wres) (x : cx) : cx :=
 Definition sess_data (c : nat) (x : cx) : cx :=
   force x (fun x =>
   match se (x_ch x) with
-  | SLive => wake_read c WOk (upc (fun ch => addlog CbData (set_st_data true ch)) x)
+  | SLive => if st_rd (x_ch x)
+             then wake_read c WOk (upc (addlog CbData) x)          (* the blocked reader takes it *)
+             else upc (fun ch => addlog CbData (set_st_data true ch)) x
   | _ => x
   end).
 (* session.eof_received: _eof_received = True, readers unblocked *)
